@@ -163,6 +163,84 @@ fn dstate(s: &Snapshot) -> String {
     )
 }
 
+/// `<i>=<hex>` after a mnemonic of k characters
+fn idx_val(s: &str, k: usize) -> (u64, Vec<u8>) {
+    let r = &s[k..];
+    let i = r.find('=').unwrap();
+    (r[..i].parse().unwrap(), unhx(&r[i + 1..]))
+}
+
+fn name_val(s: &str, k: usize) -> (Vec<u8>, Vec<u8>) {
+    let r = &s[k..];
+    let i = r.find('=').unwrap();
+    (unhx(&r[..i]), unhx(&r[i + 1..]))
+}
+
+/// wire bytes of a hand-made field section `<eic>.<sign>.<delta>:<rep>;<rep>...`, composed from the crate's
+/// prefix_int::encode / prefix_string::encode with the prefix sizes and patterns of block.rs
+fn hostile_block(spec: &str) -> Vec<u8> {
+    use h3::verif::qpack::strings::{prefix_int_encode as pi, prefix_string_encode as ps};
+    let i = spec.find(':').unwrap();
+    let p: Vec<&str> = spec[..i].split('.').collect();
+    let mut b: Vec<u8> = Vec::new();
+    pi(8, 0, p[0].parse().unwrap(), &mut b);
+    pi(7, (p[1] == "1") as u8, p[2].parse().unwrap(), &mut b);
+    for r in spec[i + 1..].split(';').filter(|r| !r.is_empty()) {
+        if r.starts_with("LS") {
+            let (x, v) = idx_val(r, 2);
+            pi(4, 0b0101, x, &mut b);
+            ps(8, 0, &v, &mut b).unwrap();
+        } else if r.starts_with("LD") {
+            let (x, v) = idx_val(r, 2);
+            pi(4, 0b0100, x, &mut b);
+            ps(8, 0, &v, &mut b).unwrap();
+        } else if r.starts_with("LP") {
+            let (x, v) = idx_val(r, 2);
+            pi(3, 0b0000, x, &mut b);
+            ps(8, 0, &v, &mut b).unwrap();
+        } else if r.starts_with("LL") {
+            let (n, v) = name_val(r, 2);
+            ps(4, 0b0010, &n, &mut b).unwrap();
+            ps(8, 0, &v, &mut b).unwrap();
+        } else if let Some(x) = r.strip_prefix('S') {
+            pi(6, 0b11, x.parse().unwrap(), &mut b);
+        } else if let Some(x) = r.strip_prefix('D') {
+            pi(6, 0b10, x.parse().unwrap(), &mut b);
+        } else if let Some(x) = r.strip_prefix('P') {
+            pi(4, 0b0001, x.parse().unwrap(), &mut b);
+        } else {
+            panic!("driver: rep");
+        }
+    }
+    b
+}
+
+/// wire bytes of a hand-made encoder-stream instruction (prefix sizes and patterns of stream.rs)
+fn hostile_instr(w: &str) -> Vec<u8> {
+    use h3::verif::qpack::strings::{prefix_int_encode as pi, prefix_string_encode as ps};
+    let mut b: Vec<u8> = Vec::new();
+    if w.starts_with("IS") {
+        let (x, v) = idx_val(w, 2);
+        pi(6, 0b11, x, &mut b);
+        ps(8, 0, &v, &mut b).unwrap();
+    } else if w.starts_with("ID") {
+        let (x, v) = idx_val(w, 2);
+        pi(6, 0b10, x, &mut b);
+        ps(8, 0, &v, &mut b).unwrap();
+    } else if w.starts_with("IL") {
+        let (n, v) = name_val(w, 2);
+        ps(6, 0b01, &n, &mut b).unwrap();
+        ps(8, 0, &v, &mut b).unwrap();
+    } else if let Some(x) = w.strip_prefix('Z') {
+        pi(5, 0b001, x.parse().unwrap(), &mut b);
+    } else if let Some(x) = w.strip_prefix('U') {
+        pi(5, 0, x.parse().unwrap(), &mut b);
+    } else {
+        panic!("driver: instr");
+    }
+    b
+}
+
 /// byte length of the first k instructions of a stream (all of it when there are fewer)
 fn prefix_len(lens: &[usize], k: usize) -> usize {
     lens.iter().take(k).sum()
@@ -181,7 +259,7 @@ fn run_qs(cap: usize, blocked: usize, ops: &str) -> String {
     let mut out: Vec<String> = Vec::new();
     for op in ops.split(',').filter(|o| !o.is_empty()) {
         let letter = match &op[..1] {
-            "b" => "B".to_string(),
+            "b" | "H" => "B".to_string(),
             "i" => "I".to_string(),
             "k" => "K".to_string(),
             x => x.to_string(),
@@ -328,6 +406,20 @@ fn run_qs(cap: usize, blocked: usize, ops: &str) -> String {
                         }
                         Err(x) => format!("K:err:{}", code(&x)),
                     }
+                }
+                "H" => {
+                    // a hand-made field section on the current decoder table; nothing is recorded
+                    let block = hostile_block(rest);
+                    let w = if block.is_empty() { "-".to_string() } else { hx(&block) };
+                    match dec.decode_header(&block) {
+                        Ok(d) => format!("B:w{}:ok:{}:{}:-", w, fieldsstr(&d.fields), d.dyn_ref as u8),
+                        Err(x) => format!("B:w{}:{}", w, dec_err_word(&x)),
+                    }
+                }
+                "J" => {
+                    let w = hostile_instr(rest);
+                    eq.extend_from_slice(&w);
+                    format!("J:{}", hx(&w))
                 }
                 "C" => {
                     let sid: u64 = rest.parse().unwrap();
